@@ -57,6 +57,10 @@ type VirtualMachine struct {
 	// Names of the globals supplied by the options of the latest New or
 	// RunCode call (inputGlobals accumulates over all calls)
 	currentGlobals map[string]bool
+
+	// Whether the options of the latest New or RunCode call said which globals
+	// the run has (possibly none at all)
+	globalsSupplied bool
 }
 
 // New creates a new Virtual Machine.
@@ -105,6 +109,7 @@ func (vm *VirtualMachine) applyOptions(options []Option) error {
 
 	// Apply options
 	vm.currentGlobals = map[string]bool{}
+	vm.globalsSupplied = false
 	for _, opt := range options {
 		opt(vm)
 	}
@@ -1095,7 +1100,7 @@ func (vm *VirtualMachine) loadCode(cc *compiler.Code) *code {
 // an earlier run on this VM supplied are not handed to code that declares a
 // global of the same name itself.
 func (vm *VirtualMachine) loadableGlobals() map[string]object.Object {
-	if len(vm.currentGlobals) == 0 {
+	if !vm.globalsSupplied {
 		return vm.globals
 	}
 	globals := make(map[string]object.Object, len(vm.currentGlobals))
